@@ -566,6 +566,18 @@ class Specialiser:
             seen.append(k)
             r, f = self.block(copy.deepcopy(stmts), dict(env), (sk, "eq", k))
             arms.append((k, r, f))
+        exhaustive = set(seen) == {True, False} and isinstance(subj, ast.Call) and isinstance(subj.func, ast.Name) and subj.func.id == "bool"
+        if exhaustive:
+            # a bool(...) subject has no third value: the last arm is the else branch
+            (k1, r1, f1), (k2, r2, f2) = arms
+            node = ast.If(test=self._key_test(subj, k1, seen), body=r1 or [ast.Pass()], orelse=r2 or [ast.Pass()])
+            ast.fix_missing_locations(node)
+            ast.copy_location(node, stmts[0])
+            for x in ast.walk(node):
+                if not hasattr(x, "lineno"):
+                    x.lineno = getattr(stmts[0], "lineno", 0)
+                    x.col_offset = 0
+            return [node], f1 == f2 == "return"
         r_other, f_other = self.block(copy.deepcopy(stmts), dict(env), (sk, "other", tuple(seen)))
         node = None
         tail = r_other
